@@ -1063,9 +1063,9 @@ func c01odometers(c *Ctx, r *Result) {
 		}
 	}
 	if n < 1 {
-		r.Errorf("C01.8: no odometer loop found (expandEdgeChunk was expected)")
+		// no odometer-style loop in the tree: nothing to compare (C01.7 decides whether boundary chunks are expanded at all)
+		r.Undec("C01.8", "odometer-loops#none-found", "", "no loop that steps a counter array against an extent array inside a row loop")
 	}
-	r.Floor("C01.8", 1)
 }
 
 func sliceName(v ssa.Value) string {
